@@ -208,6 +208,7 @@ class InlinedFunction:
         self.inlined = []
         self.refused = []
         self._assigned = {}
+        self._hoisted_calls = set()
         self.body = self._copy(fn.body, {}, {}, 0, (fn.d.get("decl"),), False) if fn.body is not None else None
         self.d = dict(fn.d)
         self.d["body"] = self.body
@@ -322,7 +323,7 @@ class InlinedFunction:
                     e = dict(e)
                     e.setdefault("inl_expr", callee.full)
                 return e
-            if not in_stmt:
+            if not in_stmt and id(n) not in self._hoisted_calls:
                 self.refused.append((n, callee, "value-returning helper whose body is more than one return statement"))
         elif why and not in_stmt:
             self.refused.append((n, self._bydecl.get(n.get("cdecl")), why))
@@ -335,7 +336,11 @@ class InlinedFunction:
                 dmap[v] = nd
                 out[key] = nd
             elif key == "s" and isinstance(v, list):
-                out[key] = [self._stmt(x, subst, dmap, depth, stack, fresh_ids) for x in v]
+                seq = []
+                for x in v:
+                    seq.extend(self._hoisted(x, subst, dmap, depth, stack, fresh_ids))
+                    seq.append(self._stmt(x, subst, dmap, depth, stack, fresh_ids))
+                out[key] = seq
             elif key in STMT_SLOTS and isinstance(v, dict):
                 out[key] = self._stmt(v, subst, dmap, depth, stack, fresh_ids)
             elif key == "s" and isinstance(v, dict):
@@ -364,6 +369,33 @@ class InlinedFunction:
                 out[key] = [self._recopy(x) if isinstance(x, dict) else x for x in v]
             else:
                 out[key] = v
+        return out
+
+    SIMPLE_STMT = ("Decl", "Assign", "Call", "MCall", "OpCall", "Return", "Un", "Bin", "Construct", "TempObj")
+
+    def _hoisted(self, x, subst, dmap, depth, stack, fresh_ids):
+        """value-returning helpers with a real body that are called inside the simple statement x: their bodies are placed
+        (parameters bound) as inline blocks in front of x, so that rules over subscripts / stores / calls see them; the
+        returned value stays the opaque call in x ('inl_value' marks such a block)"""
+        if not isinstance(x, dict) or x.get("k") not in self.SIMPLE_STMT:
+            return []
+        out = []
+        for n in walk(x, prune=lambda y: y.get("k") == "Lambda"):
+            if n is x and x.get("k") in ("Call", "MCall"):
+                continue                 # the statement itself: _stmt
+            callee, why = self._callee_of(n, depth, stack)
+            if callee is None:
+                continue
+            st = callee.body.get("s", []) if callee.body.get("k") == "Block" else []
+            if len(st) == 1 and st[0].get("k") == "Return":
+                continue                 # substituted at expression level
+            s2, d2, pro = self._inline_env(n, callee, subst, dmap, depth, stack, fresh_ids)
+            self.inlined.append((callee, n))
+            self._hoisted_calls.add(id(n))
+            body = self._copy(callee.body, s2, d2, depth + 1, stack + (callee.d.get("decl"),), True)
+            stmts = body.get("s", []) if isinstance(body, dict) and body.get("k") == "Block" else [body]
+            out.append({"k": "Block", "i": next(_fresh), "l": n.get("l"), "inl": callee.full, "inl_decl": callee.d.get("decl"), "inl_value": True,
+                        "call": n, "s": pro + stmts})
         return out
 
     def _stmt(self, n, subst, dmap, depth, stack, fresh_ids):
@@ -409,6 +441,7 @@ class CondNF:
         self.resolve = resolve
         self.const_value = const_value       # node -> float | None
         self.atom_info = {}
+        self.env = {}                        # decl id of a tracked (assigned) bool local -> formula "here and v is true" (set by Flow)
 
     def _strip(self, n):
         n = self.resolve(n)
@@ -444,6 +477,8 @@ class CondNF:
             return self._opaque(n)
         n = self.resolve(n)
         k = n.get("k")
+        if k == "Ref" and n.get("d") in self.env:
+            return self.env[n["d"]]
         if k == "Bool":
             return T if n.get("v") in (True, 1, "1", "true") else F
         if k == "Int":
@@ -578,12 +613,65 @@ class Flow:
         return {t: f_and(v, f) for t, v in st.items()}
 
     def join(self, a, b):
-        return {t: f_or(a[t], b[t]) for t in self.tags}
+        return {t: f_or(a.get(t, F), b.get(t, F)) for t in set(a) | set(b)}
 
     def run(self, body, init=None):
         st = init or {t: (T if t == "reach" else F) for t in self.tags}
+        self._find_flags(body)
         st = self.flow(body, st)
         self.exits.append((None, st))
+        self.cnf.env = {}
+        return st
+
+    # ---- bool bookkeeping flags: `bool done(false); if (c) { ...; done = true; } if (!done) { ... }` -----------------
+    def _find_flags(self, body):
+        """locals of type bool whose only modifications are statement-level assignments `v = <expr>`: their value is
+        tracked as a formula (state tag ('$', decl)), so tests of the flag are path conditions, not opaque atoms"""
+        decls, assigns, other = {}, {}, set()
+        parent = {}
+        for n in walk(body, prune=lambda y: y.get("k") == "Lambda"):
+            for c in children(n):
+                parent[id(c)] = n
+        for n in walk(body, prune=lambda y: y.get("k") == "Lambda"):
+            k = n.get("k")
+            if k == "Var" and (self.cnf.fn.ntype(n) or "").replace("const ", "").strip() in ("bool", "_Bool") and not n.get("ref"):
+                decls[n["d"]] = n
+            elif k == "Assign" and (n.get("lhs") or {}).get("k") == "Ref":
+                d = n["lhs"].get("d")
+                if n.get("op") == "=" and (parent.get(id(n)) or {}).get("k") in ("Block", "If", "For", "While", "Do", "Case", "Default"):
+                    assigns.setdefault(d, []).append(n)
+                else:
+                    other.add(d)
+            elif k == "Un" and n.get("op") in ("++", "--", "&") and (n.get("e") or {}).get("k") == "Ref":
+                other.add(n["e"].get("d"))
+            elif k in ("Call", "MCall", "Construct", "TempObj"):
+                pts = n.get("pt", [])
+                for i, a in enumerate(n.get("a", [])):
+                    if a.get("k") == "Ref" and i < len(pts):
+                        t = self.cnf.fn.type(pts[i]).strip()
+                        if "&" in t and not t.startswith("const "):
+                            other.add(a.get("d"))
+        self.flags = {d for d in decls if d in assigns and d not in other}
+        self._flag_assign = {id(a): d for d, lst in assigns.items() if d in self.flags for a in lst}
+
+    def _flags_in(self, st):
+        self.cnf.env = {d: st.get(("$", d), F) for d in getattr(self, "flags", ())}
+
+    def _flag_effects(self, n, st):
+        """declarations / assignments of tracked flags inside the simple statement n"""
+        if not getattr(self, "flags", None):
+            return st
+        if n.get("k") == "Decl":
+            for v in n.get("vars", []):
+                if v.get("d") in self.flags:
+                    self._flags_in(st)
+                    val = self.cnf.formula(v["init"]) if v.get("init") is not None else self.cnf._opaque(v)
+                    st = dict(st)
+                    st[("$", v["d"])] = f_and(st.get("reach", T), val)
+        elif id(n) in self._flag_assign:
+            self._flags_in(st)
+            st = dict(st)
+            st[("$", self._flag_assign[id(n)])] = f_and(st.get("reach", T), self.cnf.formula(n["rhs"]))
         return st
 
     def _record(self, n, st):
@@ -596,6 +684,7 @@ class Flow:
         self._record(n, st)
         if self.on_simple is not None:
             st = self.on_simple(n, st)
+        st = self._flag_effects(n, st)
         for x in walk(n, prune=lambda y: y.get("k") == "Lambda"):
             if x.get("noreturn") and x.get("k") in ("Call", "MCall"):
                 return self.bottom()
@@ -617,6 +706,7 @@ class Flow:
                     st = self.join(st, r)
             return st
         if k == "If":
+            self._flags_in(st)
             c = self.cnf.formula(n.get("c"))
             st = self.simple(n.get("c"), st)
             if n.get("init") is not None:
@@ -684,6 +774,7 @@ class Flow:
             return self.flow(n.get("body"), st)
         if k == "Cond":
             # statement-level ternary: c ? a : b
+            self._flags_in(st)
             c = self.cnf.formula(n.get("c"))
             st = self.simple(n.get("c"), st)
             return self.join(self.simple(n.get("then"), self.conj(st, c)), self.simple(n.get("else"), self.conj(st, f_not(c))))
